@@ -34,6 +34,7 @@ OPTIONS = {"plain": dict(baseline=None, W=False), "bl": dict(baseline=[0.5, 0.25
            # variance minimisation only: positive lower bounds and a requested total intensity per row
            "l1lb": dict(baseline=None, W=False, lb=0.05, L1=True),
            "dark": dict(baseline=[0.5, 0.25], W=False, dark=True),
+           "verbose": dict(baseline=[0.5, 0.25], W=True, verbose=True),
            "wide": dict(baseline=None, W=False, wide=True)}
 MODELS = ["gaussian", "poisson", "excitation", "minimize"]
 
@@ -72,6 +73,8 @@ def _call(model, sysd, opt, rows, bsreq, layout="C"):
     W = WPOOL[rows] if opt["W"] else None
     B, W = _layout(B, layout), _layout(W, layout)
     kw = dict(lb=lb, ub=ub, W=W, baseline=bl, batch_size=bsreq, return_pred=True)
+    if opt.get("verbose"):
+        kw["verbose"] = 1          # documented keyword: a progress bar must not change what is iterated
     if model in ("gaussian", "poisson"):
         X, Bp = lsq_linear(A, B, model=model, **kw)
     elif model == "excitation":
@@ -118,7 +121,9 @@ def run_job(job):
                     bs_gt_n=(bsreq != "full" and bsreq > N), bs_gt_1=(bsreq == "full" and N > 1) or (bsreq != "full" and bsreq > 1),
                     divides=(bsreq == "full" or N % bsreq == 0))
         try:
-            X, Bp = _call(model, sysd, opt, rows, bsreq, layout=kind if kind in ("fortran", "strided") else "C")
+            import contextlib, io
+            with contextlib.redirect_stderr(io.StringIO()):      # (progress bars of the verbose option)
+                X, Bp = _call(model, sysd, opt, rows, bsreq, layout=kind if kind in ("fortran", "strided") else "C")
             exc = ""
         except Exception as ex:
             exc = type(ex).__name__
@@ -190,6 +195,8 @@ def run(ctx):
         k = 6 if m == "excitation" else 2
         jobs += [("u23lb", "dark", m, (nmax if m != "excitation" or thorough else 3), part, k) for part in range(k)]
     jobs += [("u23", "wide", "minimize", nmax, part, 2) for part in range(2)]
+    for m in ("gaussian", "poisson", "minimize"):
+        jobs += [("u23", "verbose", m, nmax, part, 2) for part in range(2)]
     parts = pmap(run_job, jobs, chunksize=1)
     events = [e for p in parts for e in p]
     rids = {}
